@@ -400,11 +400,16 @@ def default_call_kills(c: ast.Call) -> Iterable[str]:
     return [r + ".*" for r in roots]
 
 
+BoolSummary = Callable[[ast.Call, bool], Iterable[tuple[str, str, int]]]
+
+
 class FactsProblem(Problem):
-    def __init__(self, cfg: CFG, entry: Facts | None = None, call_kills: CallKills | None = None) -> None:
+    def __init__(self, cfg: CFG, entry: Facts | None = None, call_kills: CallKills | None = None,
+                 bool_summary: BoolSummary | None = None) -> None:
         self.cfg = cfg
         self.entry = entry or Facts()
         self.call_kills = call_kills or default_call_kills
+        self.bool_summary = bool_summary
 
     def entry_state(self) -> Facts:
         return self.entry.copy()
@@ -531,6 +536,14 @@ class FactsProblem(Problem):
             self.apply_calls(z, a)
             if label in ("T", "F"):
                 assume(z, a, label == "T")
+                if self.bool_summary is not None:
+                    # `if helper(args):` - what the helper's constant return values imply about its arguments
+                    e, pos = a, label == "T"
+                    while isinstance(e, ast.UnaryOp) and isinstance(e.op, ast.Not):
+                        e, pos = e.operand, not pos
+                    if isinstance(e, ast.Call):
+                        for (x, y, k) in self.bool_summary(e, pos):
+                            z.add(x, y, k)
                 if z.inconsistent():
                     return None
             return z
@@ -585,5 +598,6 @@ class FactsProblem(Problem):
                 z.add(v, f"len({U(seq)})", -1)
 
 
-def analyse(cfg: CFG, entry: Facts | None = None, call_kills: CallKills | None = None) -> dict[int, Facts | None]:
-    return solve(cfg, FactsProblem(cfg, entry, call_kills))
+def analyse(cfg: CFG, entry: Facts | None = None, call_kills: CallKills | None = None,
+            bool_summary: BoolSummary | None = None) -> dict[int, Facts | None]:
+    return solve(cfg, FactsProblem(cfg, entry, call_kills, bool_summary))
